@@ -136,6 +136,19 @@ def _leaf(name, n, seed):
         m = M.TriangularFactoredDefiniteMatrix(
             M.InverseTriangularMatrix(_o(T), lower=lower), sign=sign)
         return m, sign * Ti @ Ti.T
+    if name.startswith("tri_factored_fromfull"):
+        # tri_factored_fromfull_{pos|neg|pd}_{lower|upper}: the factor is handed over as a FULL
+        # square array; documented: "only the lower- or upper-triangular elements are used"
+        _, _, _, sg, lo = name.split("_")
+        lower = lo == "lower"
+        A = P_sq(n, seed) + 1.5 * np.eye(n)
+        T = np.tril(A) if lower else np.triu(A)
+        if sg == "pd":
+            return (M.TriangularFactoredPositiveDefiniteMatrix(_o(A), factor_is_lower=lower),
+                    T @ T.T)
+        sign = 1 if sg == "pos" else -1
+        return (M.TriangularFactoredDefiniteMatrix(_o(A), sign=sign, factor_is_lower=lower),
+                sign * T @ T.T)
     if name in ("tri_factored_pd_lower", "tri_factored_pd_upper"):
         lower = name.endswith("lower")
         T = P_tri(n, seed, lower)
@@ -243,7 +256,8 @@ SQUARE_LEAVES = [
     "tri_factored_definite_pos_lower_array", "tri_factored_definite_neg_lower_array",
     "tri_factored_definite_neg_upper_array", "tri_factored_definite_pos_upper_tri",
     "tri_factored_definite_neg_lower_invtri", "tri_factored_pd_lower", "tri_factored_pd_upper",
-    "dense_definite_pos", "dense_definite_neg", "dense_definite_neg_factor", "dense_pd",
+    "tri_factored_fromfull_pd_lower", "tri_factored_fromfull_neg_upper",
+    "tri_factored_fromfull_pos_upper", "dense_definite_pos", "dense_definite_neg", "dense_definite_neg_factor", "dense_pd",
     "dense_pd_factor", "dense_pd_product", "dense_pd_product_inner", "dense_pd_product_matrix",
     "dense_square", "dense_square_lu", "dense_square_lu_transposed", "inverse_lu",
     "dense_symmetric", "dense_symmetric_eig", "dense_symmetric_eig_perm",
